@@ -170,7 +170,7 @@ struct FG { uint64_t nodeOffset, edgeOffset, numNodes, numEdges; int graphVersio
 #define convert_le32toh(x) (x)
 static inline uint64_t gv_min_u64(uint64_t a, uint64_t b) { return a < b ? a : b; }
 static inline void gv_warn(void) {}
-static inline void gv_die(void) { __CPROVER_assume(0); }
+static inline void gv_die(void) { __CPROVER_assert(0, "GALOIS_DIE reached although the preconditions describe a valid file"); __CPROVER_assume(0); }
 #define MAXFE ((uint64_t)1 << 40)
 /* what the file stores for local node k: the (clamped) end of its edge range, relative to this part of the file */
 #define FIDX(k) ((fg.outIdx[k] < fg.edgeOffset + fg.numEdges ? fg.outIdx[k] : fg.edgeOffset + fg.numEdges) - fg.edgeOffset)
